@@ -316,6 +316,26 @@ def check_orientation(case):
             if dev > 1e-8:
                 out.fail("order_disagreement", "%s aspect ratio %.3g: quadrature orders give %r (spread %.3e)" % (case["shape"], ar, vals, dev), dev=dev, order=53, ar=ar)
         out.nt(ar > 1.01)
+    elif kind == "relabel":
+        # a triaxial ellipsoid with a different eigenstrain along each axis, described with its axes relabelled cyclically
+        # (x,y,z) -> (z,x,y) -> (y,z,x): a rotation by 120 degrees about [111], which maps an isotropic or an aligned cubic matrix
+        # onto itself, so radii and eigenstrain permuted together describe the same body in the same matrix
+        r = [a * f for f in case["f"]]
+        e = case["eig"]
+        es = []
+        for sh in range(3):
+            se = StrainEnergy("ellipsoid")
+            se.description.setIntegrationIntervals(64, 64, assumeSymmetric=True)
+            if case.get("cubic"):
+                se.setElasticConstants(*case["cubic"])
+            else:
+                se.setModuli(E=case["E"], nu=case["nu"])
+            se.setEigenstrain([e[(i - sh) % 3] for i in range(3)])
+            es.append(float(se.compute([r[(i - sh) % 3] for i in range(3)])))
+        devm = (max(es) - min(es)) / max(abs(v) for v in es)
+        if devm > 1.5e-2:       # midpoint rule 64x64 on an octant: measured <= 2.1e-3 for axis ratios <= 4 (150 random cases), <= 4.6e-3 for spheroids of ratio 5
+            out.fail("axis_relabelling_midpoint", "ellipsoid with semi-axes %r and eigenstrain %r along them in %s matrix, midpoint integration: energies %r for the three cyclic relabellings of the axes" % (case["f"], e, "an aligned cubic" if case.get("cubic") else "an isotropic", es), dev=devm)
+        out.nt(len(set(case["f"][:2])) == 2 and len(set(e[:2])) == 2)
     else:
         esm = []
         for q in [None] + case["rots"]:
@@ -498,9 +518,20 @@ def _sphere_case(draw):
 
 @st.composite
 def _orient_case(draw):
-    kind = draw(st.sampled_from(["axis", "axis", "matrix"]))
+    kind = draw(st.sampled_from(["axis", "axis", "matrix", "relabel"]))
     c = {"kind": kind, "a": 10 ** draw(st.floats(-10, -7)), "ar": draw(st.floats(1.0, 10.0)), "eps": draw(st.floats(0.001, 0.05))}
-    if kind == "axis":
+    if kind == "relabel":
+        f = [1.0, draw(st.floats(1.0, 4.0)), draw(st.floats(1.0, 4.0))]
+        c["f"] = list(draw(st.permutations(f)))
+        c["eig"] = [draw(st.floats(0.001, 0.05)) * draw(st.sampled_from([1.0, 1.0, -1.0])) for _ in range(3)]
+        if draw(st.booleans()):
+            s = draw(_stiffness())
+            while s[0] != "cubic":
+                s = draw(_stiffness())
+            c["cubic"] = s[1:]
+        else:
+            c.update({"E": 10 ** draw(st.floats(10, 11.7)), "nu": draw(st.floats(0.05, 0.45))})
+    elif kind == "axis":
         c.update({"E": 10 ** draw(st.floats(10, 11.7)), "nu": draw(st.floats(0.05, 0.45)), "shape": draw(st.sampled_from(["needle", "plate"])), "norders": draw(st.sampled_from([1, 1, 2, 3]))})
     else:
         s = draw(_stiffness())
@@ -575,7 +606,7 @@ def clauses():
         Clause("sphere", _sphere_case, check_sphere, quick=300, thorough=15000,
                rule="generator: isotropic (E, nu), dilatational eigenstrain, radius, 1-3 quadrature orders; closed form 2G(1+nu)/(1-nu) eps^2 V through the Eshelby path and the spherical approximation (1e-9), textbook Eshelby tensor components and trace"),
         Clause("orientation", _orient_case, check_orientation, quick=300, thorough=15000,
-               rule="generator: needle/plate with the long (short) axis along x, y or z in an isotropic matrix (1-3 quadrature orders), and spheres with dilatational strain in a rotated cubic matrix; energies must coincide"),
+               rule="generator: needle/plate with the long (short) axis along x, y or z in an isotropic matrix (1-3 quadrature orders), spheres with dilatational strain in a rotated cubic matrix, and (1 in 4) triaxial ellipsoids (axis ratios 1-4) with a different eigenstrain along each axis in an isotropic or aligned cubic matrix described under the three cyclic relabellings of the axes (midpoint integration, 1.5 % against a measured 0.2 %); energies must coincide"),
         Clause("lebedev", _leb_case, check_lebedev, quick=600, thorough=6000,
                rule="generator: quadrature order {53, 83, 131} x monomial x^a y^b z^c of total degree 0-12: weights sum to 1 and are positive, nodes on the unit sphere, monomial averages equal the exact Gamma-function values, odd monomials vanish"),
         Clause("conversions", _conv_case, check_conversions, quick=800, thorough=40000,
